@@ -17,6 +17,6 @@ for d in sorted(glob.glob("/verif/seeded/C*")):
             break
     rows.append("| %s | %s | %s | %s | %s |" % (pid, (m.get("summary") or "")[:150].replace("|", "/").replace("\n", " "),
                 (m.get("needs") or "")[:140].replace("|", "/").replace("\n", " "),
-                "yes" if det else "NO", m.get("strengthening", sig and "`%s`" % sig.replace("|", "/"))))
+                ("yes (after strengthening)" if m.get("strengthening") else "yes") if det else "NO", m.get("strengthening", sig and "`%s`" % sig.replace("|", "/"))))
 print("| property | seeded change | needs | detected | signature / strengthening |\n|---|---|---|---|---|")
 print("\n".join(rows))
